@@ -16,6 +16,18 @@ PIPELINES = {
         ],
         "min_events": 1000,
     },
+    "csr": {
+        "variants": ["ring"],
+        "mc": [{"module": "MC_Csr", "workers": 8}],
+        "drivers": [{"name": "cases", "cmd": ["csr-cases", "{cases}", "{out}"], "cases": "MC_Csr"}],
+        "min_events": 500,
+    },
+    "crl": {
+        "variants": ["ring"],
+        "mc": [{"module": "MC_Crl", "workers": 8}],
+        "drivers": [{"name": "cases", "cmd": ["crl-cases", "{cases}", "{out}"], "cases": "MC_Crl"}],
+        "min_events": 300,
+    },
     # distinguished-name container: all edit histories of a fixed length + random long walks
     "dn": {
         "variants": ["ring"],
@@ -48,6 +60,12 @@ PROPS = {
     "C09": _p("model_checking", ["time", "cert"], ["C09."],
               "cases = MC_Time.TimeCases: (boundary day, delta seconds, UTC offset) triples around 1950-01-01, 2050-01-01, 0000-01-01 and 10000-01-01, each expressed under an offset and under the negated offset with different sub-second parts; distinct by abstract args",
               ops=["Cert"], exhaustive=True),
+    "C07": _p("model_checking", ["csr"], ["C07."],
+              "cases = MC_Csr.Cases: presence product {KU, SAN, EKU, custom} x subject x caller attribute lists (orders, duplicate OIDs) x every subset of the five inexpressible fields x algorithms, all 512 key-usage sets; each generated request is decoded independently and parsed back by rcgen",
+              ops=["Csr"], exhaustive=True),
+    "C08": _p("model_checking", ["crl"], ["C08."],
+              "cases = MC_Crl.Cases: update orderings x issuer key-usage sets x entry shapes; all reason codes x invalidity dates; serial / CRL-number byte-string classes squared; IDP URIs x scopes; 5x5 key-id methods; algorithms; times around the form boundaries in all CRL time fields",
+              ops=["Crl"], exhaustive=True),
     "C20": _p("model_checking", ["dn"], ["C20."],
               "cases = every sequence of exactly MaxOps (4 quick / 5 thorough) push/remove operations over 3-4 attribute types x 2 values (MC_Names.Histories), each followed by equality probes against freshly built names (same enumeration, proper prefix, reversed, last value changed) and by issuing a certificate whose subject is decoded; plus random walks of length 200 over 10 types and 6 value kinds; distinct by (operation, arguments) event",
               ops=["DnPush", "DnRemove", "DnEq", "DnEncode"], exhaustive=False),
